@@ -986,6 +986,16 @@ def local_skeleton(fn) -> dict:
 
 def restore_local_names(fn, ref: dict) -> list:
     """put the recorded names of renamed locals back; returns [(current, recorded)]"""
+    # fast path: every recorded local still occurs in the function -- nothing was renamed away (a recorded name that is
+    # still in use could not be put back anyway)
+    present = set()
+    for x in ast.walk(fn):
+        if isinstance(x, ast.Name):
+            present.add(x.id)
+        elif isinstance(x, ast.ExceptHandler) and x.name:
+            present.add(x.name)
+    if all(v in present for v in ref['order']):
+        return []
     cur = local_skeleton(fn)
     mapping = {}
     if cur['digest'] == ref['digest'] and len(cur['order']) == len(ref['order']):
